@@ -35,11 +35,19 @@ impl std::ops::Mul for &Primitive {
             Ok(result)
         }
 
+        /// `str::repeat` panics when the result cannot be addressed; a count like that is an error of the program.
+        fn repeat_str(original: &str, times: usize) -> Result<String> {
+            match original.len().checked_mul(times) {
+                Some(new_len) if new_len <= isize::MAX as usize => Ok(original.repeat(times)),
+                _ => bail!("a string of {} bytes cannot be repeated {times} times", original.len()),
+            }
+        }
+
         Ok(match (self, rhs) {
-            (Str(x), Int(y)) => string!(x.repeat((*y).try_into()?)),
-            (Str(x), BigInt(y)) => string!(x.repeat((*y).try_into()?)),
-            (Int(y), Str(x)) => string!(x.repeat((*y).try_into()?)),
-            (BigInt(y), Str(x)) => string!(x.repeat((*y).try_into()?)),
+            (Str(x), Int(y)) => string!(repeat_str(x, (*y).try_into()?)?),
+            (Str(x), BigInt(y)) => string!(repeat_str(x, (*y).try_into()?)?),
+            (Int(y), Str(x)) => string!(repeat_str(x, (*y).try_into()?)?),
+            (BigInt(y), Str(x)) => string!(repeat_str(x, (*y).try_into()?)?),
             (Vector(ref x), Int(y)) => {
                 vector!(raw repeat_vec(x.0.borrow().as_ref(), (*y).try_into()?)?)
             }
